@@ -177,6 +177,30 @@ def macro_refusals(H, _):
         H.check("initial_value_delivered_in_range", all(0 <= a.volume <= 1024 for a in amps[:16]))
 
 
+@contract("curve_set_via_fn_is_clamped", ["C20"], targets=["rv.chunks.array:ArrayChunk.set_via_fn", "rv.modules.base.multictl:BaseMultiCtl.CurveArray"])
+def curve_set_via_fn_is_clamped(H, _):
+    """The response curve installed with curve.set_via_fn(f), for a function f whose results at three
+    positions are ANY integers (the others follow a monotone ramp that overshoots): every entry of the
+    installed curve lies in the curve's declared bounds 0..32768 and equals f(x) clamped into them -
+    so that a monotone f always yields a valid monotone curve."""
+    p, mc, target = _rig("Amplifier", "volume")
+    probes = {0: H.int("f(0)", -(2**31), 2**31), 128: H.int("f(128)", -(2**31), 2**31), 256: H.int("f(256)", -(2**31), 2**31)}
+
+    def f(x):
+        if x in probes:
+            return probes[x]
+        return x * 160 - 1000
+
+    H.call(mc.curve.set_via_fn, f)
+    vals = mc.curve.values
+    H.check("curve_length_kept", len(vals) == 257)
+    for x in (0, 1, 5, 128, 200, 255, 256):
+        y = f(x)
+        H.check(f"curve[{x}].within_declared_bounds", H.and_(vals[x] >= 0, vals[x] <= 32768))
+        H.check(f"curve[{x}].is_f_clamped", vals[x] == H.ite(y < 0, 0, H.ite(y > 32768, 32768, y)))
+    H.cover("reached")
+
+
 def _bounded_cases(tier):
     tuples = [("Amplifier.volume", 256, 7, 0, 32768), ("Amplifier.volume", 1024, 2, 5000, 25000), ("Amplifier.balance", 256, 32767, 32768, 0),
               ("MultiSynth.transpose", 256, 1, 0, 256), ("Flanger.delay", 256, 20, 0, 32768), ("Filter.freq", 300, 3, 25000, 5000)]
@@ -201,9 +225,12 @@ def quantised_and_curved_fanout(H, case):
         "step": [0 if k < 128 else 32768 for k in range(257)],
         "concave": [min(32768, int((k / 256) ** 0.5 * 32768)) for k in range(257)],
     }
+    curves["installed_by_set_via_fn"] = "fn"
     for cn, curve in curves.items():
         p, mc, target = _rig(cname, name)
-        if curve is not None:
+        if curve == "fn":
+            mc.curve.set_via_fn(lambda x: x * 160 - 1000)  # monotone, leaves 0..32768 at both ends
+        elif curve is not None:
             mc.curve.values = curve
         mc.gain = gain
         mc.quantization = q
